@@ -65,6 +65,8 @@ type refResolver struct {
 	rootText string
 	steps    int
 	backup   map[string][]byte
+	unknownLines map[int]bool
+	unknownErrLines map[int]bool
 }
 
 func (r *refResolver) next(op, p string) (simfs.CallRec, bool) {
@@ -99,20 +101,22 @@ func includesOf(text string) []IncDirective {
 	return out
 }
 
-func (r *refResolver) expand(from string, d IncDirective) (targets []string, ok bool) {
+func (r *refResolver) expand(from string, d IncDirective, consume bool) (targets []string, ok bool) {
 	raw := d.Raw
 	dir := path.Dir(from)
 	if strings.ContainsAny(raw, "*?[") || strings.Contains(raw, "<->") {
 		pat := strings.ReplaceAll(raw, "<->", "**")
-		deep := strings.HasPrefix(pat, "**/")
-		if deep {
-			pat = pat[3:]
+		key := pat
+		if !strings.HasPrefix(key, "/") {
+			key = path.Join(dir, pat)
 		}
-		if pat != "*.journal" {
-			return nil, false // the model only knows the patterns the generator writes
+		rec, okr := simfs.CallRec{}, false
+		if consume {
+			rec, okr = r.next("glob", key)
+		} else if q := r.calls["glob "+key]; len(q) > 0 {
+			rec, okr = q[0], true
 		}
-		key := path.Join(dir, strings.ReplaceAll(raw, "<->", "**"))
-		if rec, ok := r.next("glob", key); ok {
+		if okr {
 			// what the matcher returned when the loader asked; the loader's own
 			// duties (drop the including file, sort) are the model's too
 			var ts []string
@@ -124,8 +128,21 @@ func (r *refResolver) expand(from string, d IncDirective) (targets []string, ok 
 			sort.Strings(ts)
 			return ts, true
 		}
+		deep := strings.HasPrefix(pat, "**/")
+		if deep {
+			pat = pat[3:]
+		}
+		if pat != "*.journal" {
+			// a pattern the generator never writes (a torn read cut a directive) for
+			// which the loader asked nothing: the model does not know
+			return nil, false
+		}
 		ts := globTargets(r.disk, dir, deep, from)
 		return ts, true
+	}
+	// home expansion as documented: "~" alone and "~/x"
+	if raw == "~" {
+		return []string{r.home}, true
 	}
 	if strings.HasPrefix(raw, "~/") {
 		raw = path.Join(r.home, raw[2:])
@@ -142,8 +159,9 @@ func (r *refResolver) resolve(file, text string, stack []string) {
 		return
 	}
 	for _, d := range includesOf(text) {
-		targets, ok := r.expand(file, d)
+		targets, ok := r.expand(file, d, true)
 		if !ok {
+			r.unknownLines[d.Line] = true
 			continue
 		}
 		if len(targets) == 0 {
@@ -219,7 +237,9 @@ func (r *refResolver) markSubtreeUnsure(file, text string, stack []string) {
 		return
 	}
 	for _, d := range includesOf(text) {
-		targets, ok := r.expand(file, d)
+		// nothing is asserted about this directive, whatever a torn read made of it
+		r.unknownErrLines[d.Line] = true
+		targets, ok := r.expand(file, d, false)
 		if !ok {
 			continue
 		}
@@ -476,7 +496,7 @@ func (c10) Run(ctx *RunCtx) {
 
 	// ---- reference
 	ref := &refResolver{disk: w.Disk, home: w.Home, maxSize: limits.MaxFileSizeBytes, maxDepth: limits.MaxIncludeDepth,
-		calls: map[string][]simfs.CallRec{}, loaded: map[string]bool{root.Path: true}, unsureFiles: map[string]bool{}, backup: backup}
+		calls: map[string][]simfs.CallRec{}, loaded: map[string]bool{root.Path: true}, unsureFiles: map[string]bool{}, backup: backup, unknownLines: map[int]bool{}, unknownErrLines: map[int]bool{}}
 	for _, r := range trace {
 		k := r.Op + " " + r.Path
 		ref.calls[k] = append(ref.calls[k], r)
@@ -538,7 +558,7 @@ func (c10) Run(ctx *RunCtx) {
 		}
 	}
 	for p := range res.Files {
-		if !ref.loaded[p] && !ref.unsureFiles[p] {
+		if !ref.loaded[p] && !ref.unsureFiles[p] && len(ref.unknownLines) == 0 {
 			extra = append(extra, p)
 		}
 	}
@@ -589,7 +609,7 @@ func (c10) Run(ctx *RunCtx) {
 		}
 	}
 	for _, e := range gotKeys {
-		if want[e] == 0 && !unsure[e] {
+		if want[e] == 0 && !unsure[e] && !ref.unknownLines[e.Line] && !ref.unknownErrLines[e.Line] {
 			diffs = append(diffs, fmt.Sprintf("unexpected %dx %v", got[e], e))
 			if cls == "" {
 				cls = "err-" + e.Kind + "-unexpected"
